@@ -60,6 +60,7 @@ type cenv struct {
 	inOld  bool
 	strs   []string // candidate strings for string quantifiers
 	preIDs int      // object ids up to this number were seen before the call
+	files  map[string]bool // non-nil: the complete set of files that exist during the replay (file system reads become evaluable)
 	why    string   // last reason for unknown
 }
 
@@ -240,10 +241,10 @@ func (c *cenv) domainFor(b Binder, body Expr, forall bool, all []Binder) ([]inte
 	var guards []Expr
 	if forall {
 		if im, ok := body.(*EBinary); ok && im.Op == "==>" {
-			guards = conjuncts(im.X)
+			guards = c.guardConjuncts(im.X, 0)
 		}
 	} else {
-		guards = conjuncts(body)
+		guards = c.guardConjuncts(body, 0)
 	}
 	switch b.Type {
 	case "int":
@@ -413,6 +414,69 @@ func conjuncts(e Expr) []Expr {
 		return append(conjuncts(b.X), conjuncts(b.Y)...)
 	}
 	return []Expr{e}
+}
+
+// guardConjuncts: conjuncts with applications of `define`d predicates unfolded (so that "k in m" inside a define is
+// seen as a bound on k)
+func (c *cenv) guardConjuncts(e Expr, depth int) []Expr {
+	var out []Expr
+	for _, g := range conjuncts(e) {
+		if call, ok := g.(*ECall); ok && depth < 3 {
+			if gf, ok := c.v.cs.GhostFuncs[call.Fn]; ok && gf.Def != nil && len(gf.Params) == len(call.Args) {
+				sub := map[string]Expr{}
+				for i, p := range gf.Params {
+					sub[p.Name] = call.Args[i]
+				}
+				out = append(out, c.guardConjuncts(substExpr(gf.Def, sub), depth+1)...)
+				continue
+			}
+		}
+		out = append(out, g)
+	}
+	return out
+}
+
+func substExpr(e Expr, sub map[string]Expr) Expr {
+	switch x := e.(type) {
+	case *EIdent:
+		if r, ok := sub[x.Name]; ok {
+			return r
+		}
+		return x
+	case *EUnary:
+		return &EUnary{Op: x.Op, X: substExpr(x.X, sub)}
+	case *EBinary:
+		return &EBinary{Op: x.Op, X: substExpr(x.X, sub), Y: substExpr(x.Y, sub)}
+	case *ESel:
+		return &ESel{X: substExpr(x.X, sub), Name: x.Name}
+	case *EIndex:
+		return &EIndex{X: substExpr(x.X, sub), I: substExpr(x.I, sub)}
+	case *ESlice:
+		n := &ESlice{X: substExpr(x.X, sub)}
+		if x.Lo != nil {
+			n.Lo = substExpr(x.Lo, sub)
+		}
+		if x.Hi != nil {
+			n.Hi = substExpr(x.Hi, sub)
+		}
+		return n
+	case *ECall:
+		n := &ECall{Fn: x.Fn}
+		for _, a := range x.Args {
+			n.Args = append(n.Args, substExpr(a, sub))
+		}
+		return n
+	case *EQuant:
+		inner := map[string]Expr{}
+		for k, v := range sub {
+			inner[k] = v
+		}
+		for _, b := range x.Vars {
+			delete(inner, b.Name)
+		}
+		return &EQuant{Forall: x.Forall, Vars: x.Vars, Body: substExpr(x.Body, inner)}
+	}
+	return e
 }
 
 func mentions(e Expr, name string) bool {
@@ -946,6 +1010,15 @@ func (c *cenv) call(x *ECall) interface{} {
 			unk("regexp %q: %v", lit.V, err)
 		}
 		return re.MatchString(str(0))
+	case "statOK", "statNotExist":
+		if c.files == nil {
+			unk("the file system of the run is not known")
+		}
+		p := str(1)
+		if x.Fn == "statOK" {
+			return c.files[p]
+		}
+		return !c.files[p]
 	case "ptr":
 		return c.eval(x.Args[1])
 	case "fresh":
